@@ -6,7 +6,9 @@ Line-protocol front end of the C05 model (requests after the leading `C05` field
   frag <globals,comma-separated> <program tokens>     → ok <code text> <constants> <result> <stdout hex>
   sortedKeys <hex,hex,…>                               → sorted hex list
   setSorted <i:n|s:hex,…>                              → items in SortedItems order
-  visit <perm> <hex,hex,…>                             → the entries in the adversary's order (Environ, StringKeys)
+  visit <perm> <hex,hex,…>                             → the entries in the adversary's order (StringKeys; Environ/ReadDir before their repair)
+  environ <perm> <khex:vhex,…>                         → VirtualOS.Environ: the KEY=value lines (hex) in the order returned, the env map visited in order <perm>
+  readDir <perm> <pathhex:namehex,…>                   → MockFS.ReadDir: positions (in the request) of the entries in the order returned
   firstFailure <perm> <ok|e<id>,…>                     → id of the failure that is reported, or none
   overrides <perm> <name=ok|name=bad,…>                → the names whose override is applied (sorted)
   setOrder <perm> <item,…>                             → positions (in the request) of the items in SortedItems order,
@@ -14,8 +16,8 @@ Line-protocol front end of the C05 model (requests after the leading `C05` field
   setIter <perm> <item,…>                              → the same for the items an iteration over the set yields
   sortedBy <perm> <item,…> <rank,…>                    → the same for sorted(set|map, cmp), cmp a b = rank a < rank b
   importCache <perm> <global=modname:id|global=-,…> <name,…> → per name: id of the module `import name` binds, or -
-  render <object graph>                                → ok <Inspect()> <PrintableValue+%v> <string(x)> <interpolation> <error() = Interface()+%v>
-                                                          <PrintableValue without the Inspect() fallback> <noRawAddr> <cellFree>   (texts in hex)
+  render <object graph>                                → ok <Inspect()> <PrintableValue+%v> <string(x)> <interpolation> <error() / builtins.Sprintf>
+                                                          <PrintableValue without the Inspect() fallback> <pre-fix error(): Interface()+%v> <noRawAddr> <cellFree>   (texts in hex)
   object graph (prefix, single spaces): <GoTypeName|pair> <address> <txt hex|-> <raw hex|-> <aux hex|-> <nkids> graph*nkids
   item := i:<int> | s:<hex> | t | f | n | d:<position of the float among the non-NaN floats> | D (NaN) | b:<byte> | y:<hex bytes>
 
@@ -178,7 +180,7 @@ def handle : List String → String
     match parseR (toks.length + 2) toks with
     | some (o, []) =>
       "\t".intercalate ["ok", hexOut o.inspect, hexOut o.printable, hexOut o.stringBuiltin, hexOut o.interp,
-        hexOut (ifaceV o), hexOut o.printableNoFallback, toString o.noRawAddr, toString o.cellFree]
+        hexOut o.errorFmt, hexOut o.printableNoFallback, hexOut (ifaceV o), toString o.noRawAddr, toString o.cellFree]
     | _ => "error\tbad-graph"
   | ["frag", globals, prog] =>
     match parseProg prog with
@@ -212,6 +214,25 @@ def handle : List String → String
   | ["visit", perm, es] =>
     let l := if es = "-" then [] else es.splitOn ","
     orDash (",".intercalate (inVisitingOrder id (applyPerm (parsePerm perm) l)))
+  | ["environ", perm, es] =>
+    let parse (s : String) : Option (String × String) :=
+      match s.splitOn ":" with
+      | [k, v] => do pure (← optHex k, ← optHex v)
+      | _ => none
+    match (if es = "-" then some [] else (es.splitOn ",").mapM parse) with
+    | some l => orDash (",".intercalate ((environ (applyPerm (parsePerm perm) l)).map fun x => toHexField (rawBytes x)))
+    | none => "error\tbad-hex"
+  | ["readDir", perm, es] =>
+    let parse (s : String) : Option (String × String) :=
+      match s.splitOn ":" with
+      | [k, v] => do pure (← optHex k, ← optHex v)
+      | _ => none
+    match (if es = "-" then some [] else (es.splitOn ",").mapM parse) with
+    | some l =>
+      -- the info attached to an entry is its position in the request
+      let ents := (List.range l.length).zipWith (fun i (e : String × String) => (e.1, e.2, i)) l
+      orDash (".".intercalate ((readDir (applyPerm (parsePerm perm) ents)).map fun e => toString e.2))
+    | none => "error\tbad-hex"
   | ["firstFailure", perm, es] =>
     let l := if es = "-" then [] else es.splitOn ","
     match firstFailure (fun (s : String) => if s = "ok" then none else some s) (applyPerm (parsePerm perm) l) with
